@@ -124,13 +124,14 @@ type Engine struct {
 	constArrs     map[string]string
 	sumFns        map[string]string
 	sortPerms     []sortPerm
+	callArgTypes  map[string]types.Type
 	anc           map[int]map[int]bool // top-level function: block -> blocks that can reach it (forward edges)
 	allocRefs     map[string]bool
 	allocBase     map[string]string
 }
 
 func newEngine(p *Prog, fn *ssa.Function) *Engine {
-	return &Engine{prog: p, vc: newVC(p), root: fn, rootKey: funcKey(fn), heapSorts: map[string]string{}, heapInit: map[string]string{}, maxInline: 4, nameCount: map[string]int{}, calledFns: map[string]bool{}, usedContracts: map[string]bool{}, ghosts: map[string]*ghostRef{}, constArrs: map[string]string{}, sumFns: map[string]string{}, allocRefs: map[string]bool{}, allocBase: map[string]string{}}
+	return &Engine{prog: p, vc: newVC(p), root: fn, rootKey: funcKey(fn), heapSorts: map[string]string{}, heapInit: map[string]string{}, maxInline: 4, nameCount: map[string]int{}, calledFns: map[string]bool{}, usedContracts: map[string]bool{}, ghosts: map[string]*ghostRef{}, constArrs: map[string]string{}, sumFns: map[string]string{}, allocRefs: map[string]bool{}, callArgTypes: map[string]types.Type{}, allocBase: map[string]string{}}
 }
 
 func (e *Engine) note(kind, s string) {
@@ -161,6 +162,9 @@ func (e *Engine) initHeap(name, sort string) string {
 	}
 	e.heapInit[name] = c
 	e.heapSorts[name] = sort
+	if strings.HasPrefix(name, "callarg_") {
+		// never read before the call that sets it
+	}
 	if strings.HasPrefix(name, "called_") || name == "lock_held" {
 		// ghost flags start false
 		e.vc.insertGlobal(1, "(assert (not "+c+"))")
@@ -209,6 +213,14 @@ func (e *Engine) addObl(st *State, kind, label, prop string, pos token.Pos) *Obl
 // assume a fact that holds whenever the state is reached
 func (e *Engine) assumeIn(st *State, f string) {
 	e.vc.assume(implies(st.cond, f))
+}
+
+// package-level variables initialised by a call and never reassigned in layer (checked by grep; trusted)
+var trustedGlobals = map[string]string{
+	"github.com/tellor-io/layer/types.PowerReduction":              "1000000",
+	"github.com/tellor-io/layer/types.OneTrb":                      "1000000",
+	"github.com/tellor-io/layer/types.OnePercent":                  "10000",
+	"github.com/cosmos/cosmos-sdk/types.DefaultPowerReduction":     "1000000",
 }
 
 // ---------- zero values / type invariants ----------
@@ -918,8 +930,18 @@ func (e *Engine) pathSet(root string, path []pathStep, v string) string {
 	if p.field >= 0 {
 		ss := e.vc.structInfo(p.ct)
 		if ss.opaque {
-			e.unsupported("store into opaque struct " + ss.name)
-			return root
+			// opaque (foreign) struct: the updated value is a fresh value that agrees with the old one on every
+			// other field and has the new content in the written field
+			nv := e.vc.fresh("upd", ss.name)
+			for i, sel := range ss.fields {
+				e.vc.declFun(sel, []string{ss.name}, e.vc.sortOf(ss.ftypes[i]))
+				if i == p.field {
+					e.vc.assume(eq(app(sel, nv), e.pathSet(app(sel, root), path[1:], v)))
+				} else {
+					e.vc.assume(eq(app(sel, nv), app(sel, root)))
+				}
+			}
+			return nv
 		}
 		var fs []string
 		for i, sel := range ss.fields {
@@ -942,6 +964,10 @@ func (fr *Frame) load(st *State, a *addr) Val {
 	if a.kind == aGlob && len(a.path) == 0 {
 		if c := e.prog.globalConst(a.glob); c != nil {
 			return e.constVal(c)
+		}
+		if lit, ok := trustedGlobals[a.glob.String()]; ok {
+			e.note("approx", "global "+a.glob.String()+" taken as the constant "+lit+" (initialised once, never reassigned in layer)")
+			return Val{S: lit, T: a.T}
 		}
 	}
 	root := e.loadRoot(st, a)
